@@ -28,7 +28,7 @@ FLOOR = {"quick": 1500, "thorough": 25000}
 
 
 def plan(tier, seed):
-    per = 110 if tier == "quick" else 1700
+    per = 200 if tier == "quick" else 2200
     return [{"n": per} for _ in range(16)]
 
 
@@ -247,7 +247,13 @@ def check_multi(ctx, spec, doc, case):
     if not rows:
         return
     ctx.count("first_row_top_checks")
-    if pbf != "":
+    sec0 = spec["sections"][0]
+    h0 = sec0.get("colheader", "default")
+    no_hdr0 = h0 == "none" or (h0 == "default" and not sec0.get("body", {}).get("as_colheader", True)) or \
+        (spec.get("multi_header") == "flat" and h0 == "none")
+    if E.spanning_mode(sec0.get("body", {})) and no_hdr0:
+        ctx.count("top_edge_clause_excluded(page_by_without_column_headers)")
+    elif pbf != "":
         got = [style_of(d, "t") for d in rows[0].defs]
         if any(g != E.BORDER_WORD[pbf] for g in got):
             ctx.violation(f"multi-section: first table row top edge {got} != rtf_page.border_first '{pbf}'", case,
